@@ -55,6 +55,15 @@ CHECKS.update({
  'C06': (E2, 'Same search with the immutability monitor: frozen records (core values, version counters, R, N, M, dtype, core count) of every live object compared after every transition; every TT argument position of every entry point (operands and initial guesses) is filled from the pool; views stay views under replay so writes through a result into its source are seen.',
          'as C05', '§4.2, §5 C06'),
 })
+CHECKS.update({
+ 'C15': ('bounded exhaustive enumeration of programs (expression trees) x tracking choices on the real library, dense autograd reference + finite differences',
+         'ALL type-correct expression trees of depth <= 2 (3 thorough) over the differentiable TT operations (+,-,*,@ in all forms, scalar ops, mprod, transpose, ...) closed by every terminal (full, sum, norm, dot incl. partial, bilinear_form, slicing, apply_mask, cat, pad, kron, sum(axes), diag, mprod list) x 8 tracking choices (which operand, all cores or one core): value and every tracked-core gradient equal the dense-model autograd result (1e-9) and a central finite difference (1e-5); grad.watch/grad.grad return the same tensors with the cores\' shapes.',
+         'float64; fixed small operand shapes [2,3,2] with ranks (2,2)/(3,2); values generic', '§5 C15'),
+ 'C16': (E1, 'For every achievable minimal rank profile over ranks <= 3 of base points of order 2..4 (5 thorough), tensors and operators, and z,w of rank 1..4: P(z) equals the checker\'s own dense tangent-space projector (built from unfolding SVDs), plus linearity, idempotence, self-adjointness, P(x)=x, residual orthogonality, rank <= 2r; riemannian_gradient equals the projected dense Euclidean gradient for three f.',
+         'generic cores make the profile minimal (verified by SVD, else skipped and counted); tolerance 1e-9', '§5 C16'),
+ 'C17': (EM + ', both backends side by side, each case in a forked child', 'The extension is rebuilt from /repo\'s cpp/ sources (hash-keyed), and the C11 fast_matvec space (all structures incl. order 1, eps menu, seeds, initial guesses) and every C12 amen_solve configuration with <= 2 (3) deviations (preconditioner None/c/r, x0, local solver) run through python and cpp backends: same acceptance, each within its bound, mutual agreement; a crash of the compiled code is attributed to the case.',
+         'built with -std=c++20 -lopenblas instead of setup.py flags (which cannot build here); finite seed menu', '§5 C17'),
+})
 PENDING = {}
 ALL = ['C%02d' % i for i in range(1, 21)]
 
